@@ -29,7 +29,7 @@ BUDGET = {"quick": 700, "thorough": 30000}
 SHRINK_SECONDS = {"quick": 40, "thorough": 200}
 RULE = (
     "case = (problem from vlib.gen_matrix.problems, relation in {scale, merge, split, permute, pad, power}, relation "
-    "parameters). Non-trivial = the transformed or the original problem has >= 2 parameters (or relation=power), "
+    "parameters, input as dict / list / monomial-key dict / one symbolic matrix). Non-trivial = the transformed or the original problem has >= 2 parameters (or relation=power), "
     "K >= 2 and U_n != 0 at some order >= 2 of the original."
 )
 ASSUMPTIONS = [
